@@ -1,8 +1,12 @@
-"""C18 — supervisor; see DESIGN.md section 6.  Proof: props/C18.v.  Tie: trace acceptance (check B)."""
+"""C18 — supervisor; see DESIGN.md section 6.  Proof: props/C18.v.  Tie: trace acceptance (check B).
+Further legs (each in its own module, reporting with a key prefix): HTTP cluster (c18_cluster),
+internal/finitestate subscriptions (c18_fsm)."""
+import json
 from . import supcommon as S
+from . import c18_cluster, c18_fsm
 
-OCAML = S.OCAML
-GO = S.GO
+OCAML = S.OCAML + c18_cluster.OCAML + c18_fsm.OCAML
+GO = S.GO + c18_cluster.GO + c18_fsm.GO
 FAMILIES = "mixed,reload,state,sdsender,big,subclose,errs".split(",")
 PROP = "props/C18.v"
 PROOFS = ["proofs/SupInv.v", "proofs/SupStop.v", "proofs/SupTrig.v", "proofs/SupGate.v", "proofs/SupOnce.v", "proofs/SupReload.v", "proofs/SupCensus.v"]
@@ -10,7 +14,14 @@ PROOFS = ["proofs/SupInv.v", "proofs/SupStop.v", "proofs/SupTrig.v", "proofs/Sup
 
 def run(run):
     S.run_property(run, "C18", FAMILIES, PROP, PROOFS)
+    c18_cluster.leg(run)
+    c18_fsm.leg(run)
 
 
 def replay(path):
+    kind = json.load(open(path)).get("replay", {}).get("kind")
+    if kind == "c18-cluster":
+        return c18_cluster.replay_payload(json.load(open(path))["replay"], path)
+    if kind == "c18-fsm":
+        return c18_fsm.replay_payload(json.load(open(path))["replay"], path)
     return S.replay("C18", path)
